@@ -32,6 +32,8 @@ REQ_STATES = ('INIT_REQ_SENT', 'AUTH_REQ_SENT', 'NEW_CHILD_REQ_SENT', 'REK_CHILD
 
 
 class CollisionOracle:
+    WAIT_MAX = 32.0
+
     def __init__(self, world, wire, fifo, H):
         self.w, self.wire, self.fifo, self.H = world, wire, fifo, H
         self.reach = {}
@@ -41,6 +43,7 @@ class CollisionOracle:
         self.log_idx = 0
         self.err_idx = 0
         self.judged = 0
+        self.waiting = {}
         world.monitors.append(self)
 
     def _r(self, k, n=1):
@@ -95,6 +98,25 @@ class CollisionOracle:
                     self.log_idx = len(w.logs)
                     return self.viol('exception_escaped_entry_point', {'error': err}, f'{nname}: {msg}')
         self.log_idx = len(w.logs)
+        # ---- nobody waits for a response for ever: one outstanding request is given up after the retransmission budget (2+4+6+8 s and a tick)
+        seen = set()
+        for n in w.nodes.values():
+            if n.state != 'running' or n.exited:
+                continue
+            for sa in n.ike_sas():
+                if sa.state.name in REQ_STATES:
+                    k = (n.name, n.incarnation, id(sa))
+                    seen.add(k)
+                    cur = (sa.state.name, sa.my_msg_id)
+                    old = self.waiting.get(k)
+                    if old is None or old[0] != cur:
+                        self.waiting[k] = (cur, w.now)
+                    elif w.now - old[1] > self.WAIT_MAX and n.stalled_until <= w.now:
+                        return self.viol('ike_sa_left_waiting_for_a_response', {'state': sa.state.name},
+                                         f'{n.name}: IKE_SA {sa.my_spi.hex()} has been in {sa.state.name} with request {sa.my_msg_id} outstanding for '
+                                         f'{w.now - old[1]:.0f}s (retransmission budget is about 21 s)')
+        for k in [k for k in self.waiting if k not in seen]:
+            del self.waiting[k]
         # ---- calm points, agreement
         qf = w.scenario.get('quiet_from', 0)
         if w.now < qf + self.H:
@@ -331,10 +353,9 @@ def run(scenario):
     def at_end(w, ctx):
         orc = ctx['oracle']
         if not orc.reach.get('calm_points_judged') and all(n.state == 'running' for n in w.nodes.values()):
-            tabs = {n.name: [(sa.my_spi.hex(), sa.state.name, len(sa.pending_events)) for sa in n.ike_sas()] for n in w.nodes.values()}
-            w.violation(PROP, 'no_calm_point_after_drain', {},
-                        f'{scenario["H"] + 25:.0f}s of lossless network after the last fault and never a moment with nothing in flight and no '
-                        f'IKE_SA waiting for a response; tables {tabs}')
+            # no violation by itself: with short lifetimes new exchanges keep starting in the tail, and one that loses its peer takes the whole
+            # retransmission budget (found by the thorough tier, seed 501016401).  "Left waiting" is judged per IKE_SA above (WAIT_MAX).
+            orc._r('no_calm_point_in_tail')
     ctx['at_end'] = at_end
     try:
         w = execute(scenario, setup, ctx)
